@@ -602,7 +602,8 @@ func (r *runner) doSave(o hx.Op, exotic bool) {
 	// back THROUGH that object (which earlier loads of the scenario already went through)
 	fl, okFl := parsePairs(o.Str("fl"))
 	cn, okC := keyedSlot(o, "cmd")
-	if !okFl || !okC {
+	at, okAt := slotName(o)
+	if !okFl || !okC || !okAt {
 		r.c.Emit("bad-op")
 		return
 	}
@@ -615,9 +616,6 @@ func (r *runner) doSave(o hx.Op, exotic bool) {
 	if cn != "" {
 		slot = r.cmdSlot(cn)
 		home = slot.home
-	} else if at, okAt := slotName(o); !okAt {
-		r.c.Emit("bad-op")
-		return
 	} else if at == "" {
 		home = r.home()
 		defer os.RemoveAll(home)
